@@ -126,9 +126,15 @@ class SchemaField:
 
         try:
             dtm.datetime.strptime(value, format)
-            return None  # all good
         except Exception as exc:
             return str(exc)
+
+        # strptime() is too tolerant (unpadded parts, non-ASCII digits, 1-2 digit fraction)
+        layout = re.escape(format).replace("%Y", "[0-9]{4}").replace("%f", "[0-9]{3,6}")
+        layout = re.sub("%[mdHMS]", "[0-9]{2}", layout)
+        if not re.fullmatch(layout, value):
+            return f"value does not match fixed layout of format '{format}'"
+        return None  # all good
 
     @staticmethod
     def _validate_value_monthyear(value):
@@ -199,6 +205,17 @@ class SchemaField:
                 raise ValueError("not isfinite number")
             if num_range and not (v >= num_range[0] and v <= num_range[1]):
                 raise ValueError(f"out of range {num_range}")
+            # int() / float() are too tolerant ('1_0', ' 5', '+5', '1e5', non-ASCII digits)
+            if num_type is int:
+                lexical = r"-?[0-9]+"
+            else:
+                lexical = r"-?([0-9]+\.?[0-9]*|\.[0-9]+)"
+            if not re.fullmatch(lexical, value):
+                raise ValueError(
+                    "only ASCII digits with optional leading minus"
+                    + (" and decimal point" if num_type is float else "")
+                    + " allowed"
+                )
             # all good
             return None
         except ValueError as exc:
